@@ -10,6 +10,7 @@ Open Scope Z_scope.
 Inductive pyexn : Type :=
 | IndexError | KeyError | ValueError | ZeroDivisionError | AttributeError | TypeError
 | UnicodeDecodeError | InternalError
+| OtherExn           (* any other exception class observed on the implementation (case files only) *)
 | FuelExhausted.     (* artefact of fuel recursion; the theorems show it is never produced *)
 
 (* Outcome of one operation.  [ParserError k]: a bitproto error class (a subclass of
@@ -180,6 +181,8 @@ Definition is_subclass (h : list (string * list string)) (c target : string) : b
 (* ---------- helpers for case files ---------- *)
 
 Definition asc (l : list nat) : list ascii := map ascii_of_nat l.
+(* the same from binary numerals (case files: cheap to parse) *)
+Definition ascz (l : list Z) : list ascii := map (fun z => ascii_of_nat (Z.to_nat z)) l.
 
 Fixpoint ascii_list_eqb (a b : list ascii) : bool :=
   match a, b with
@@ -194,6 +197,7 @@ Definition pyexn_eqb (a b : pyexn) : bool :=
   | ZeroDivisionError, ZeroDivisionError | AttributeError, AttributeError
   | TypeError, TypeError | UnicodeDecodeError, UnicodeDecodeError
   | InternalError, InternalError | FuelExhausted, FuelExhausted => true
+  (* OtherExn is never equal to anything: the model cannot predict an unknown exception *)
   | _, _ => false
   end.
 
